@@ -1,1 +1,44 @@
-(* C09 — theorems: see stream model (work in progress) *)
+(* C09 — truncated streams are always detected: the part that is logic.
+   Reader model: a stream that stops before its end marker - cut at a block boundary or inside a
+   block (that block then fails to decode), whatever happened to the blocks before, with or
+   without a block range - never makes any Read report end-of-stream; the bytes handed out are a
+   prefix of the true data; and every Read sequence that asks for more than that receives the error.
+   (That a cut inside a block makes its decoding task fail, for every cut position, is the
+   end-of-stream behaviour of the bit stream: Model/InBS.v, correspondence + search.) *)
+From Coq Require Import List NArith ZArith Lia.
+From KV Require Import Model.Writer Model.Reader Proofs.ReaderProofs Proofs.ReaderGen.
+Import ListNotations.
+Open Scope N_scope.
+
+Theorem C09_truncated_never_complete : forall B jobs hint from to data dfr cut ns, 0 < B -> 0 < jobs ->
+  dmg dfr (chunks B data) ->
+  let out := fst (do_reads_g B jobs hint from to (init_r (firstn cut dfr)) ns) in
+  ~ In REOF (map snd out) /\
+  (exists m, concat (map fst out) = firstn m (range_bytes B from to data)) /\
+  (forall l1 x l2, out = l1 ++ x :: l2 -> snd x = RErr -> Forall (fun y => y = ([], RErr)) l2).
+Proof.
+  intros B jobs hint from to data dfr cut ns HB HJ Hd out.
+  destruct (reader_truncated B jobs hint from to HB HJ data dfr cut ns Hd) as (k & _ & Hr).
+  unfold out. rewrite Hr. split; [apply (spec_reads_g_never_eof B jobs HB HJ)|]. split.
+  - destruct (spec_reads_g_prefix B jobs HB HJ ns (range_bytes B from to (firstn (k * N.to_nat B) data)) true) as [m1 H1].
+    destruct (range_bytes_prefix B jobs from to HB HJ data (k * N.to_nat B)) as [m2 H2].
+    rewrite H1, H2, firstn_firstn. eexists. reflexivity.
+  - intros l1 x l2. apply spec_reads_g_sticky.
+Qed.
+Print Assumptions C09_truncated_never_complete.
+
+Theorem C09_error_reported : forall B jobs hint from to data dfr cut ns k, 0 < B -> 0 < jobs ->
+  dmg dfr (chunks B data) -> 0 < k -> (length data < N.to_nat (fold_right N.add 0%N ns) + N.to_nat k)%nat ->
+  In RErr (map snd (fst (do_reads_g B jobs hint from to (init_r (firstn cut dfr)) (ns ++ [k])))).
+Proof.
+  intros B jobs hint from to data dfr cut ns k HB HJ Hd Hk Hl.
+  destruct (reader_truncated B jobs hint from to HB HJ data dfr cut (ns ++ [k]) Hd) as (k0 & _ & Hr).
+  rewrite Hr. apply (spec_reads_g_error_reported B jobs HB HJ); [exact Hk|].
+  pose proof (range_bytes_length B jobs from to HB HJ (firstn (k0 * N.to_nat B) data)) as H1. rewrite firstn_length in H1. lia.
+Qed.
+Print Assumptions C09_error_reported.
+
+Example C09_instance :
+  fst (do_reads_g 4 2 0 0 0 (init_r (firstn 2 [FData [1;2;3;4]; FData [5;6;7;8]; FData [9]])) [3; 3; 9; 1]) =
+  [([1;2;3], RNil); ([4;5;6], RNil); ([7;8], RErr); ([], RErr)].
+Proof. vm_compute. reflexivity. Qed.
